@@ -137,6 +137,9 @@ class DataPacketQueue(utils.EventEmitter):
             self._in_flight -= in_flight
             connection_state.drained.set()
 
+        # Credits may have been released: send what can now be sent.
+        self._check_queue()
+
     def _check_queue(self) -> None:
         while self._packets and self._in_flight < self.max_in_flight:
             packet, connection_handle = self._packets.pop()
